@@ -38,7 +38,7 @@ class Interp:
 
     # ------------------------------------------------------------ obligations
 
-    def oblige(self, st, goal, kind, clause, where=""):
+    def oblige(self, st, goal, kind, clause, where="", assume=True):
         """Emit an obligation `pc => goal` and assume the goal afterwards."""
         g = z3.simplify(goal) if z3.is_expr(goal) else z3.BoolVal(bool(goal))
         if not self.dry:
@@ -52,7 +52,8 @@ class Interp:
                                func=self.verifying or f, clause=clause)
                 o.status = "trivial"
                 self.obligations.append(o)
-        st.assume(goal)
+        if assume:
+            st.assume(goal)
 
     def canary(self, st, kind, where=""):
         """vacuity guard: `pc => False` must NOT be provable for at least one path of each kind"""
@@ -556,7 +557,7 @@ class Interp:
     def for_over(self, node, st, it):
         """`for tgt in it`: desugared to a counter loop  c = 0; while c < N: tgt = item(c); body; c += 1"""
         n_items, item = lib.iter_protocol(self, st, it, node)
-        cname = f"__c{id(node)}"
+        cname = f"__c_L{node.lineno}_{node.col_offset}"
         st.env[cname] = Num(z3.IntVal(0), "int")
         spec = self.loop_spec(node, st)
         info = dict(cname=cname, n_items=n_items, item=item)
@@ -679,7 +680,7 @@ class Interp:
         # 1. invariant on entry
         for inv in invs:
             g = self.specs.eval_invariant(self, contract, inv, st, node, info)
-            self.oblige(st, g, "inv-entry", inv, wh)
+            self.oblige(st, g, "inv-entry", inv, wh, assume=False)
         # 2. havoc set by fixpoint (dry runs)
         hv_vars, hv_heap = {}, {}
         self.dry += 1
@@ -727,10 +728,13 @@ class Interp:
             c = h.env[info["cname"]].t
             h.assume(z3.And(c >= 0, c <= info["n_items"]))
         dec0 = self.specs.eval_invariant(self, contract, dec, h, node, info, boolean=False) if dec else None
-        head = self.fork(h)
+        for hn in contract.hints.get((ordn, "head"), []):
+            self.oblige(h, self.specs.eval_invariant(self, contract, hn, h, node, info), "hint", hn, wh)
         exits, backs, others = self.loop_body_once(node, h, kind, info)
         for b in backs:
             self.canary(b, f"canary-loop{ordn}", wh)
+            for hn in contract.hints.get((ordn, "end"), []):
+                self.oblige(b, self.specs.eval_invariant(self, contract, hn, b, node, info), "hint", hn, wh)
             for inv in invs:
                 g = self.specs.eval_invariant(self, contract, inv, b, node, info)
                 self.oblige(b, g, "inv-preserve", inv, wh)
@@ -739,6 +743,8 @@ class Interp:
                 self.oblige(b, z3.And(d1 < dec0, dec0 >= 0) if True else None, "decreases", dec, wh)
         res = list(others)
         for s, why in exits:
+            for hn in contract.hints.get((ordn, "exit"), []):
+                self.oblige(s, self.specs.eval_invariant(self, contract, hn, s, node, info), "hint", hn, wh)
             if why == "guard" and node.orelse:
                 res.extend(self.exec_block(node.orelse, s))
             else:
